@@ -56,7 +56,7 @@ func init() {
 	reg(&Property{
 		ID:          "C03",
 		Explanation: "Decides necessary conditions only: P1 in tripleToRow every row store is followed on every path by the binding-consistency check whose false edge abandons the triple, and each extraction is built from the matching part of the triple; P2 the three tables naming a clause's bindings agree with the struct; P3 on each of the eight nil-patterns simpleFetch calls the driver method whose parameters are exactly the fixed components; S10 clause-level and row-supplied bounds are treated as mirror images; L3 row values looked up with comma-ok are not dereferenced when absent; S9 kind/instant matching at the driver. Also: P3b the unfeasible flag joins constants only; PO1 predicate/object extraction twins; TB1 the table's two column descriptions move together; S6b planner never writes the shared options; L3b cell pointer fields tested before use; S1/S1x index agreement. Not decided: soundness/completeness of the join.",
-		Rules: []func(*Ctx){ruleTB3, ruleHK1, ruleTB2, ruleS1, ruleS1x, ruleP1, ruleP2, ruleP3, ruleP3b, ruleS6b, rulePO1, ruleTB1, func(c *Ctx) { ruleL3b(c, "bql/planner") }, func(c *Ctx) { ruleS10(c, 3, "bql/planner", "bql/semantic", "storage/memory") },
+		Rules: []func(*Ctx){ruleP3c, ruleTB3, ruleHK1, ruleTB2, ruleS1, ruleS1x, ruleP1, ruleP2, ruleP3, ruleP3b, ruleS6b, rulePO1, ruleTB1, func(c *Ctx) { ruleL3b(c, "bql/planner") }, func(c *Ctx) { ruleS10(c, 3, "bql/planner", "bql/semantic", "storage/memory") },
 			func(c *Ctx) { ruleL3(c, "bql/...") }, ruleS9},
 		Level:      "row-binding typestate (P1), table agreement (P2), dispatch by nil-pattern with edge facts (P3), bound duality (S10), comma-ok contradiction rule (L3)",
 		Trusted:    []string{"pair table of S10 (lower/upper field names)", trustedCore},
@@ -154,7 +154,7 @@ func init() {
 	reg(&Property{
 		ID:          "C14",
 		Explanation: "Decides one clause only: P11 no map iteration order reaches an ordered output — every range over a map in bql/… and storage/… whose body appends, sends, writes or leaves with an element is followed by a sort of what it built or is in the reviewed table with its reason; in particular the ORDER BY key list is no longer rebuilt from a map. Also: HK1 hooks consume the modifier token they remember (no carry-over to the next clause); P3b the last FROM graph does not decide feasibility alone; S6b; P12b; S1/S1x index agreement (answers do not depend on which index a clause order selects); M4/M5. Not decided: invariance under renaming, clause permutation, partitioning, chanSize/bulkSize/GOMAXPROCS, monotonicity.",
-		Rules:       []func(*Ctx){ruleTB2, ruleH1x, func(c *Ctx) { ruleD1(c, "triple/...", "io", "bql/...", "storage/...") }, func(c *Ctx) { ruleS3c(c, "triple/...", "io", "bql/...", "storage/...") }, ruleHK1, ruleS1, ruleS1x, ruleM4M5, func(c *Ctx) { ruleP11(c, "bql/...", "storage/...") }, ruleP3b, ruleS6b, ruleP12b},
+		Rules:       []func(*Ctx){ruleP3c, ruleTB2, ruleH1x, func(c *Ctx) { ruleD1(c, "triple/...", "io", "bql/...", "storage/...") }, func(c *Ctx) { ruleS3c(c, "triple/...", "io", "bql/...", "storage/...") }, ruleHK1, ruleS1, ruleS1x, ruleM4M5, func(c *Ctx) { ruleP11(c, "bql/...", "storage/...") }, ruleP3b, ruleS6b, ruleP12b},
 		Level:       "enumeration of order-sensitive map ranges with a reviewed table (P11)",
 		Trusted:     []string{"p11Reviewed (8 sites, one reason each)", trustedCore},
 		NotDecided:  []string{"invariance under binding renaming, clause order, partitioning over graphs, channel/bulk sizes, GOMAXPROCS", "monotonicity under added triples — all relations between runs"},
